@@ -91,8 +91,9 @@ func observeResolvers(c caseT) *observation {
 	scoped := ap.FilterPeerAuthenticationNamespaces(sets.New(clientNS, rootNS, wlNS))
 	for _, q := range servicePorts {
 		ep := &model.IstioEndpoint{Namespace: wlNS, Labels: wlLabels, EndpointPort: q, TLSMode: model.IstioMutualTLSModeLabel}
-		o.Client[q] = endpoints.VerifCheckMtlsEnabled(nil, ap, int(q), nil, "", ep, false)
-		o.ClientScoped[q] = endpoints.VerifCheckMtlsEnabled(nil, scoped, int(q), nil, "", ep, false)
+		// the checker is created per *service* port and asked about an endpoint's *target* port
+		o.Client[q] = endpoints.VerifCheckMtlsEnabled(nil, ap, svcPortOf[q], nil, "", ep, false)
+		o.ClientScoped[q] = endpoints.VerifCheckMtlsEnabled(nil, scoped, svcPortOf[q], nil, "", ep, false)
 	}
 	ps := &model.PushContext{}
 	port := &model.Port{Name: "tcp", Port: int(portTCP)}
